@@ -3,6 +3,9 @@
 import json, os, subprocess
 V = os.path.dirname(os.path.dirname(os.path.abspath(__file__)))
 TEXT = {
+ 'C14': ('fresh-twin monitor: every property read on a real stream / proxy / linked stream / phase view during a mutation history is compared with the same property of a brand-new stream built from the reader\'s current state; a counter on the mixture-model methods separates memo hits from recomputations',
+         'Exploration: seeded histories of 8-40 steps (21 properties; T/P/phase/flow edits through every view, total-only and composition-only changes, set-back-to-previous-value patterns across readers, mixing, link/unlink, package reset, phase-set changes).',
+         'The twin is built through public constructors; reads that also raise on the twin are not judged.'),
  'C11': ('view-consistency monitor: after every step of a history on a real stream the mass/vol views and totals are compared with mol*MW, mol*V_i(phase,T,P) evaluated by the harness, and their sums; set/get round trips and fixed unit factors at write steps',
          'Exploration: seeded histories of 5-40 steps mixing view writes in 8 units with T/P/phase/phases changes, link_with (all flag subsets)/unlink with a partner, copy_like, property-package reset, scale, mixing; the stream and its partner are both checked after every step.',
          'Molar volumes are read from the Chemical objects; unit factors from a fixed exact table.'),
